@@ -81,6 +81,7 @@ type Scenario struct {
 	Steps      []Step     `json:"steps"`
 	Tags       []string   `json:"tags,omitempty"`
 	MinChip    int64      `json:"minchip,omitempty"`
+	Via        string     `json:"via,omitempty"` // "manager": every call goes through a pokertable.Manager next to bystander tables
 	Interval   int        `json:"interval,omitempty"`
 }
 
@@ -114,6 +115,8 @@ type TD struct {
 	autoFailed bool
 	dead      bool
 	injDone   map[string]bool
+	mgr       pt.Manager
+	bystanders []string
 }
 
 func errNameT(err error) string {
@@ -201,7 +204,20 @@ func NewTD(rec *Recorder, sc *Scenario) *TD {
 		d.rec.Emit("spy", a, res, d.te, nil, nil, false)
 	}
 	interval := sc.Interval
-	d.te = pt.NewTableEngine(&pt.TableEngineOptions{GameContinueInterval: interval, OpenGameTimeout: 2}, pt.WithGameBackend(d.spy))
+	if sc.Via == "manager" {
+		d.mgr = pt.NewManager()
+		d.te = &mgrEngine{m: d.mgr, id: fmt.Sprintf("t%d", sc.Seed), cbs: pt.NewTableEngineCallbacks()}
+		for b := 0; b < 2; b++ { // bystander tables with players of their own
+			bt, _ := d.mgr.CreateTable(nil, nil, pt.TableSetting{TableID: fmt.Sprintf("by%d-%d", sc.Seed, b), Meta: pt.TableMeta{CompetitionID: "c", Rule: "default", Mode: "ct",
+				MaxDuration: 1000000, TableMaxSeatCount: 4, TableMinPlayerCount: 2, MinChipUnit: 1, ActionTime: 10}, Blind: pt.TableBlindState{Level: 1, SB: 1, BB: 2},
+				JoinPlayers: []pt.JoinPlayer{{PlayerID: "p1", RedeemChips: 10, Seat: 0}, {PlayerID: "p2", RedeemChips: 11, Seat: 2}}})
+			if bt != nil {
+				d.bystanders = append(d.bystanders, bt.ID)
+			}
+		}
+	} else {
+		d.te = pt.NewTableEngine(&pt.TableEngineOptions{GameContinueInterval: interval, OpenGameTimeout: 2}, pt.WithGameBackend(d.spy))
+	}
 	te := d.te
 	te.OnTableUpdated(func(t *pt.Table) {
 		if d.isDead() {
@@ -253,8 +269,22 @@ func NewTD(rec *Recorder, sc *Scenario) *TD {
 		d.noteSetup(parts)
 		te.SetUpTableGame(gc, parts)
 	})
-	pt.VerifSetHook(te, d.hook)
+	if sc.Via != "manager" {
+		pt.VerifSetHook(te, d.hook)
+	}
 	return d
+}
+
+func (d *TD) bystanderDigest() string {
+	s := ""
+	for _, id := range d.bystanders {
+		if e, err := d.mgr.GetTableEngine(id); err == nil {
+			s += tableDigest(e.GetTable())
+		} else {
+			s += "gone"
+		}
+	}
+	return s
 }
 
 func (r *Recorder) gidLocked(id string) int {
@@ -307,7 +337,7 @@ func (d *TD) hook(point string) {
 	}
 	d.hmu.Unlock()
 	if point == "continue.setup" {
-		st := pt.VerifOpenGameManager(d.te).GetState()
+		st := pt.VerifOpenGameManager(realEngine(d.te)).GetState()
 		parts := map[string]int{}
 		for id, p := range st.Participants {
 			parts[id] = p.Index
@@ -522,6 +552,10 @@ func (d *TD) call(name string, ap *Args, fn func() error) string {
 	e0 := d.rec.Events()
 	pre := d.rec.Project(d.te, nil)
 	dg0 := tableDigest(d.te.GetTable())
+	by0 := ""
+	if d.mgr != nil {
+		by0 = d.bystanderDigest()
+	}
 	res := func() (res string) {
 		defer func() {
 			if r := recover(); r != nil {
@@ -532,6 +566,15 @@ func (d *TD) call(name string, ap *Args, fn func() error) string {
 		return errNameT(fn())
 	}()
 	dg1 := tableDigest(d.te.GetTable())
+	if d.mgr != nil {
+		d.rec.mu.Lock()
+		if d.bystanderDigest() == by0 {
+			d.rec.by = "same"
+		} else {
+			d.rec.by = "changed"
+		}
+		d.rec.mu.Unlock()
+	}
 	d.rec.Emit("ret:"+name, *ap, res, d.te, nil, &pre, dg0 == dg1)
 	d.settle()
 	if d.rec.Events() != e0+1 {
@@ -1058,6 +1101,80 @@ func minChipOf(sc *Scenario) int64 {
 	return sc.MinChip
 }
 
+// managerProbes: an id that was never created, and the driver's own table after it has been closed / released through
+// the manager, must yield the table-not-found error from every manager operation (C17).
+func (d *TD) managerProbes() {
+	m := d.mgr
+	own := d.te.(*mgrEngine).id
+	probe := func(id, phase string) {
+		jp := pt.JoinPlayer{PlayerID: "x", RedeemChips: 1, Seat: -1}
+		calls := []struct {
+			n string
+			f func() error
+		}{
+			{"GetTableEngine", func() error { _, e := m.GetTableEngine(id); return e }},
+			{"PauseTable", func() error { return m.PauseTable(id) }}, {"StartTableGame", func() error { return m.StartTableGame(id) }},
+			{"SetUpTableGame", func() error { return m.SetUpTableGame(id, 1, map[string]int{"x": 0}) }},
+			{"UpdateBlind", func() error { return m.UpdateBlind(id, 2, 0, 0, 1, 2) }},
+			{"UpdateTablePlayers", func() error { _, e := m.UpdateTablePlayers(id, []pt.JoinPlayer{jp}, nil); return e }},
+			{"PlayerReserve", func() error { return m.PlayerReserve(id, jp) }}, {"PlayerJoin", func() error { return m.PlayerJoin(id, "x") }},
+			{"PlayerSettlementFinish", func() error { return m.PlayerSettlementFinish(id, "x") }},
+			{"PlayerRedeemChips", func() error { return m.PlayerRedeemChips(id, jp) }}, {"PlayersLeave", func() error { return m.PlayersLeave(id, []string{"x"}) }},
+			{"PlayerExtendActionDeadline", func() error { _, e := m.PlayerExtendActionDeadline(id, "x", 3); return e }},
+			{"PlayerReady", func() error { return m.PlayerReady(id, "x") }}, {"PlayerPay", func() error { return m.PlayerPay(id, "x", 1) }},
+			{"PlayerBet", func() error { return m.PlayerBet(id, "x", 1) }}, {"PlayerRaise", func() error { return m.PlayerRaise(id, "x", 2) }},
+			{"PlayerCall", func() error { return m.PlayerCall(id, "x") }}, {"PlayerAllin", func() error { return m.PlayerAllin(id, "x") }},
+			{"PlayerCheck", func() error { return m.PlayerCheck(id, "x") }}, {"PlayerFold", func() error { return m.PlayerFold(id, "x") }},
+			{"PlayerPass", func() error { return m.PlayerPass(id, "x") }},
+			{"CloseTable", func() error { return m.CloseTable(id) }}, {"ReleaseTable", func() error { return m.ReleaseTable(id) }},
+		}
+		for _, c := range calls {
+			by0 := d.bystanderDigest()
+			err := c.f()
+			a := mkArgs()
+			a.Kind, a.Note, a.ID = c.n, phase, id
+			d.rec.mu.Lock()
+			if d.bystanderDigest() == by0 {
+				d.rec.by = "same"
+			} else {
+				d.rec.by = "changed"
+			}
+			d.rec.mu.Unlock()
+			d.rec.Emit("mgrprobe", a, errNameT(err), nil, nil, nil, false)
+		}
+	}
+	probe("never-created", "unknown")
+	// close (or release) the driver's own table through the manager, then it must be unknown as well
+	a := mkArgs()
+	var err error
+	if _, gone := m.GetTableEngine(own); gone != nil {
+		// the scenario itself closed / released the table through the manager
+		a.Kind, a.Note = "already-removed", "own"
+		d.rec.Emit("mgrclose", a, "ok", nil, nil, nil, false)
+		probe(own, "after-scenario-close")
+		return
+	}
+	if d.sc.Seed%2 == 0 {
+		a.Kind = "CloseTable"
+		d.rec.Emit("call:CloseTable", mkArgs(), "", d.te, nil, nil, false)
+		err = m.CloseTable(own)
+	} else {
+		a.Kind = "ReleaseTable"
+		d.rec.Emit("call:ReleaseTable", mkArgs(), "", d.te, nil, nil, false)
+		err = m.ReleaseTable(own)
+	}
+	a.Note = "own"
+	d.rec.Emit("mgrclose", a, errNameT(err), nil, nil, nil, false)
+	probe(own, "after-"+a.Kind)
+	// the bystanders are still there and untouched
+	for _, id := range d.bystanders {
+		_, e := m.GetTableEngine(id)
+		b := mkArgs()
+		b.Kind, b.ID = "GetTableEngine", id
+		d.rec.Emit("mgrbystander", b, errNameT(e), nil, nil, nil, false)
+	}
+}
+
 // ---- running a scenario ---------------------------------------------------------------
 
 func (d *TD) Run() string {
@@ -1083,6 +1200,9 @@ func (d *TD) Run() string {
 		_, err := d.te.CreateTable(setting)
 		return errNameT(err)
 	}()
+	if d.mgr != nil && res == "ok" {
+		pt.VerifSetHook(realEngine(d.te), d.hook)
+	}
 	d.rec.Emit("ret:CreateTable", a, res, d.te, nil, nil, false)
 	if res != "ok" {
 		d.rec.Emit("end", mkArgs(), "create-failed", d.te, nil, nil, false)
@@ -1109,9 +1229,14 @@ func (d *TD) Run() string {
 	e := mkArgs()
 	e.Note = outcome
 	d.rec.Emit("end", e, outcome, d.te, nil, nil, false)
+	if d.mgr != nil {
+		d.managerProbes()
+	}
 	d.hmu.Lock()
 	d.dead = true
 	d.hmu.Unlock()
-	pt.VerifSetHook(d.te, nil)
+	if re := realEngine(d.te); re != nil {
+		pt.VerifSetHook(re, nil)
+	}
 	return outcome
 }
